@@ -561,8 +561,8 @@ func Explore(c *core.Ctx) int64 {
 		c.ReportRejections(rest, fmt.Sprintf("routing / queued payloads on %d real brokers differ from the gossip model", len(k.names)))
 	}
 	c.Set("distinct_nontrivial", nontrivial)
-	c.Set("rule", "TLC-simulated schedules on 2 and 3 brokers (full mesh): client subscribe / unsubscribe on two ssids per broker, periodic full-state gossip, per-link pick (gossip bucket first) and FIFO delivery, run to quiescence; replayed on real broker.Service + cluster.Swarm objects wired through a transcription of mesh's gossipSender that calls the real State.Merge / Encode; the routing table of every real trie and the activeness of every replica are compared with the model at every quiescent point, the abstract content of every payload put on a wire at every pick; non-trivial = schedules validated completely (not cut short by a listed finding)")
-	c.Assume = append(c.Assume, "full mesh, no link failures, no peer garbage collection, reliable FIFO links (what mesh's TCP connections provide)",
+	c.Set("rule", "TLC-simulated schedules on 2 and 3 brokers: client subscribe / unsubscribe on two ssids per broker, periodic full-state gossip, per-link pick (gossip bucket first) and FIFO delivery, link down / garbage collection of the unreachable peer / link up with the complete-state exchange, run to quiescence; replayed on real broker.Service + cluster.Swarm objects wired through a transcription of mesh's gossipSender that calls the real State.Merge / Encode; the routing table of every real trie and the activeness of every replica are compared with the model at every quiescent point, the abstract content of every payload put on a wire at every pick, real publishes on every broker at the end of every schedule; a schedule with a gc step rejected by the intended design is validated again against the model of the code (GcAsCode); non-trivial = schedules validated completely (not cut short by a listed finding)")
+	c.Assume = append(c.Assume, "reliable FIFO links while a connection is up (what mesh's TCP connections provide); a broken connection loses what was queued and in flight; broadcasts are not re-routed through a third broker while a link is down",
 		"the sending side of weaveworks/mesh is a transcription (harness/meshsender), the router's topology computation and goroutines are not run",
 		"clock readings come from one strictly increasing counter (every reading later than all earlier ones)")
 	return nontrivial
